@@ -1726,3 +1726,102 @@ func crossParam(p *chk.Prog, f *chk.Fn, names ...string) func(ast.Expr) bool {
 		return true
 	}
 }
+
+// paramsInResults: the parameters the function's results depend on by data flow - mentioned in a returned expression, or
+// in some assignment to a local that is (transitively) mentioned there. Control dependence is not followed.
+func paramsInResults(f *chk.Fn) map[types.Object]bool {
+	params := map[types.Object]bool{}
+	if f.Type.Params != nil {
+		for _, fld := range f.Type.Params.List {
+			for _, nm := range fld.Names {
+				if o := f.Info().Defs[nm]; o != nil {
+					params[o] = true
+				}
+			}
+		}
+	}
+	seen := map[types.Object]bool{}
+	out := map[types.Object]bool{}
+	var visit func(e ast.Node)
+	visit = func(e ast.Node) {
+		ast.Inspect(e, func(n ast.Node) bool {
+			id, ok := n.(*ast.Ident)
+			if !ok {
+				return true
+			}
+			o := f.ObjOf(id)
+			v, isVar := o.(*types.Var)
+			if !isVar || v.IsField() || seen[o] {
+				return true
+			}
+			seen[o] = true
+			if params[o] {
+				out[o] = true
+				return true
+			}
+			for _, d := range assignsTo(f, o) {
+				if as, isAs := d.(*ast.AssignStmt); isAs {
+					for _, r := range as.Rhs {
+						visit(r)
+					}
+				}
+			}
+			return true
+		})
+	}
+	ast.Inspect(f.Body, func(n ast.Node) bool {
+		if _, isLit := n.(*ast.FuncLit); isLit {
+			return false
+		}
+		if rs, ok := n.(*ast.ReturnStmt); ok {
+			for _, r := range rs.Results {
+				visit(r)
+			}
+		}
+		return true
+	})
+	return out
+}
+
+// appendSameKeyRule: an accumulation `M[k1] = append(M[k2], v)` reads and writes the same entry: k1 and k2 are the same
+// expression over the same values. (A different key on the read side restarts the entry from another one - or from
+// nothing - every time.)
+func appendSameKeyRule(x *chk.R, p *chk.Prog, pkgs ...string) int {
+	n := 0
+	for _, pk := range pkgs {
+		for _, f := range p.FuncsIn(pk) {
+			if f.Body == nil {
+				continue
+			}
+			ast.Inspect(f.Body, func(nd ast.Node) bool {
+				as, ok := nd.(*ast.AssignStmt)
+				if !ok || len(as.Lhs) != 1 || len(as.Rhs) != 1 {
+					return true
+				}
+				lx, ok := ast.Unparen(as.Lhs[0]).(*ast.IndexExpr)
+				if !ok {
+					return true
+				}
+				if _, isMap := f.Info().TypeOf(lx.X).Underlying().(*types.Map); !isMap {
+					return true
+				}
+				call, ok := ast.Unparen(as.Rhs[0]).(*ast.CallExpr)
+				if !ok || len(call.Args) < 2 {
+					return true
+				}
+				if id, isId := call.Fun.(*ast.Ident); !isId || id.Name != "append" {
+					return true
+				}
+				rx, ok := ast.Unparen(call.Args[0]).(*ast.IndexExpr)
+				if !ok || !f.SameExpr(rx.X, lx.X) {
+					return true
+				}
+				n++
+				x.Check("append-same-entry:"+f.Name()+":"+types.ExprString(lx.X), as.Pos(), f.SameExpr(lx.Index, rx.Index), "",
+					"the entry "+types.ExprString(as.Lhs[0])+" is rebuilt from "+types.ExprString(call.Args[0])+", a different entry: what was accumulated under the written key is lost")
+				return true
+			})
+		}
+	}
+	return n
+}
